@@ -77,7 +77,12 @@ Judge(e) ==
                                   [] why \in {"bignum-form", "constr-general-form", "redeemers-array-form", "output-map-form", "header-nested-form"} ->
                                        \* retained encoding detail: the JSON form does not carry it; the content must be equal, the bytes are those of a fresh value
                                        /\ Chk(f.eq, "C17", "Json/" \o ty \o "/value-read-back-not-equal/" \o why, sc, [bytes |-> b])
-                                       /\ Chk(~IsErr(oit) /\ Conforms(Schema, ty, oit, "fresh") = OK, "C17", "Json/" \o ty \o "/bytes-after-json-not-in-fresh-form/" \o why, sc, [bytes |-> b, out |-> ob])
+                                       \* (two set elements that differed ONLY in the retained encoding - distinct datums on the wire - are one and the same value in
+                                       \* JSON: what comes back holds it twice. The statement has no word on that; it is noted, not demanded.)
+                                       /\ LET ofr == IF IsErr(oit) THEN <<"undecodable">> ELSE Conforms(Schema, ty, oit, "fresh") IN
+                                          IF ofr # OK /\ ofr[Len(ofr)] = "set-dup" /\ Conforms(Schema, ty, it, "write") = OK
+                                          THEN Note("C17", "set elements that differ only in encoding collapse in the JSON form", sc, [ty |-> ty])
+                                          ELSE Chk(ofr = OK, "C17", "Json/" \o ty \o "/bytes-after-json-not-in-fresh-form/" \o why, sc, [bytes |-> b, out |-> ob])
                                   [] OTHER -> Note("C17", "instance outside the fresh profile for another reason: " \o why, sc, [ty |-> ty])))
 Init == l = 1
 Next == /\ l <= Len(Rec)
